@@ -118,7 +118,7 @@ func genCase(t *rapid.T) Case {
 	if gen.Pick(t, 3, "comp") == 0 {
 		c.Main = genOp(t, composite, 20)
 	} else {
-		c.Main = genOp(t, single, 60)
+		c.Main = genOp(t, single, 400)
 	}
 	if gen.Pick(t, 5, "inter") == 0 {
 		c.TrapMode = "intersect"
